@@ -100,7 +100,10 @@ def gen_inputs(tier, rnd):
     n = 700 if tier == "quick" else 8000
     for _ in range(n):
         spec = V.gen_spec(rnd)
-        yield {"spec": spec, "table": V.gen_table(rnd, spec), "mode": "yield", "prepass": rnd.random() < 0.15}
+        table = V.gen_table(rnd, spec)
+        if rnd.random() < 0.3:
+            spec, table = V.builtin_variant(rnd, spec, table)     # one column of another built-in type (numbers, dates, patterns)
+        yield {"spec": spec, "table": table, "mode": "yield", "prepass": rnd.random() < 0.15}
 
 
 def direct_oracle(inp, obs):
